@@ -44,7 +44,8 @@ ssize_t verif_write(int fd, const void *buf, size_t n)
 	maybe_crash();
 	return (ssize_t)amount;
 }
-void cjet_get_random_bytes(void *b, size_t n) { unsigned char *p = b; for (size_t i = 0; i < n; i++) p[i] = (unsigned char)(17 + i); }
+static int random_symbolic;
+void cjet_get_random_bytes(void *b, size_t n) { unsigned char *p = b; for (size_t i = 0; i < n; i++) p[i] = random_symbolic ? nd_u8() : (unsigned char)(17 + i); }
 /* serialisation of the database: the library's text rendering is not modelled; the new file content is "NEW" */
 static char *verif_print_db(const cJSON *c) { (void)c; char *r = cjet_malloc(4); if (!r) return 0; r[0] = 'N'; r[1] = 'E'; r[2] = 'W'; r[3] = 0; return r; }
 
@@ -297,6 +298,12 @@ void harness_passwd(void)
 	__CPROVER_assume(login(&P1, "u1", "p1")); target = "u1x"; allowed = 0;     /* an account whose name starts with the requester's name */
 #elif PWCASE == 8
 	__CPROVER_assume(login(&P1, "u1x", "px")); target = "u1"; allowed = 0;     /* an account whose name is a prefix of the requester's name */
+#elif PWCASE == 9
+	__CPROVER_assume(!login(&P1, "u1", "bad")); target = "u1"; allowed = 0;    /* claimed to be u1 with a wrong password: still unauthenticated */
+#elif PWCASE == 10
+	__CPROVER_assume(!login(&P1, "adm", "bad")); target = "u1"; allowed = 0;   /* claimed to be the admin with a wrong password */
+#elif PWCASE == 11
+	__CPROVER_assume(login(&P1, "u2", "p2") && !login(&P1, "adm", "bad")); target = "u1"; allowed = 0;   /* authenticated as u2, then a failed claim to be the admin */
 #endif
 	scn_build_begin(); cJSON *req = auth_req(5, "passwd", target, "nw"); scn_build_end();
 	reset_log();
@@ -326,6 +333,25 @@ void harness_passwd(void)
 		CHECK(file_len == 3 && FILE_BYTES[0] == 'N' && FILE_BYTES[1] == 'E' && FILE_BYTES[2] == 'W', "C20.file_holds_the_new_database_after_every_change");
 		REACH("changed");
 	}
+	WITNESS_END();
+}
+
+/* ================================================================== C20.salt: a freshly drawn salt consists of characters of the crypt(3) alphabet only,
+ * whatever the random source delivers (a NUL or '$' inside it would truncate or re-tag the salt: crypt() then fails or
+ * hashes with other parameters and neither the old nor the new password authenticates) */
+void harness_fill_salt(void)
+{
+	random_symbolic = 1;
+	unsigned len = (unsigned)nd_range(0, 16);
+	char buf[20];
+	for (int i = 0; i < 20; i++) buf[i] = 'X';
+	fill_salt(buf, len);
+	for (unsigned i = 0; i < 16; i++) if (i < len) {
+		char c = buf[i];
+		CHECK((c >= 'a' && c <= 'z') || (c >= 'A' && c <= 'Z') || (c >= '0' && c <= '9') || c == '.' || c == '/', "C20.salt_characters_are_from_the_crypt_alphabet");
+	}
+	CHECK(buf[len] == '$' && buf[len + 1] == 0, "C20.salt_is_terminated_after_exactly_the_requested_length");
+	if (len == 16) REACH("long_salt");
 	WITNESS_END();
 }
 
